@@ -6,7 +6,7 @@ import asyncio
 import time
 from typing import TYPE_CHECKING, Any
 
-from hypergraph.exceptions import ExecutionError, InfiniteLoopError
+from hypergraph.exceptions import ExecutionError, InfiniteLoopError, describe_exception
 from hypergraph.nodes.base import HyperNode
 from hypergraph.nodes.function import FunctionNode
 from hypergraph.nodes.gate import IfElseNode, RouteNode
@@ -362,7 +362,7 @@ async def _emit_run_end(
             parent_span_id=parent_span_id,
             graph_name=graph.name,
             status="failed" if error is not None else "completed",
-            error=str(error) if error is not None else None,
+            error=describe_exception(error) if error is not None else None,
             duration_ms=duration_ms,
         )
     )
